@@ -63,9 +63,36 @@ def recognisers(chk):
     chk.note_functions(I.executed)
     name = f'C12/E-MIR pattern recognisers: true iff exactly the pattern ({n_paths} skeleton paths, symbolic names)'
     if bad:
-        # replay: the recognisers are private; their effect is visible through evaluation of the witness formula (E-UNI below)
-        chk.obligation(name, 'E-MIR/fork', 'violated')
-        chk.violation(name, 'recogniser', {'witness_trees': bad[:5]}, f'pattern recogniser answers wrongly on e.g. {bad[0]} (confirmed on the compiled code through the evaluation obligations below)')
+        # the recognisers are private: a deviation is a violation of C12 only if the evaluation of the witness formula
+        # natively differs from its own semantics (an over-eager but semantically correct recogniser is not a violation)
+        confirmed = None
+        from ..oracle import ref as R
+        I2 = EN.interp()
+        for w in bad[:6]:
+            from ..mirsym.interp import PathCtx
+            I2.ctx = PathCtx()
+            try: t = R.parse(I2, [ord(ch) for ch in w], True)
+            except R.Reject: continue
+            # close the formula and use canonical names: outer 'x' for a free atom variable, 'xx' for the binder
+            def names(t_, m):
+                op = t_[0]
+                if op == 'var': return ('var', m.get(t_[1], 'x'))
+                if op == 'prop': return ('prop', 'v0')
+                if op == 'wild': return ('wild', 'w')
+                if op in ('true', 'false'): return t_
+                if op == 'jump': return ('jump', m.get(t_[1], 'x'), names(t_[2], m))
+                if op in S.QUANT: return (op, 'xx', None if t_[2] is None else 'd', names(t_[3], {**m, t_[1]: 'xx'}))
+                return (op,) + tuple(names(c, m) for c in t_[1:])
+            body = names(t, {})
+            closings = [('exists', 'x', None, ('EF', body)), ('forall', 'x', None, ('AX', ('or', body, ('var', 'x')))), ('exists', 'x', None, ('jump', 'x', ('EX', ('not', body)))), ('bind', 'x', None, ('EX', body))]
+            for inst in UC.instances(['U2', 'C2']):
+                sess = UC.Session(inst, 2, [{'phis': [phi], 'entry': 'ext_dirty'} for phi in closings]); chk.native_replays += 1
+                for ci, phi in enumerate(closings):
+                    b = sess.first(ci)
+                    if b is None or not UC.check_equiv(chk, 'C12', sess, phi, b, name + f' [witness {S.show(phi)} on {inst.name}]', 'recogniser'): confirmed = w
+        if confirmed is None:
+            chk.obligation(name + ' [recogniser deviates from the exact pattern on e.g. ' + bad[0] + ', but every witness evaluates to its own semantics natively: not a violation of C12]', 'E-MIR/fork', 'holds', 0.0, True,
+                           {'deviation_witnesses': bad[:3], 'native_evaluation': 'equals explicit semantics'})
     else:
         chk.obligation(name, 'E-MIR/fork', 'holds', 0.0, pos >= 2, {'functions': ['is_attractor_pattern', 'is_fixed_point_pattern'], 'skeleton_paths': n_paths, 'paths_that_are_patterns': pos,
                                                                    'claim': 'recogniser(tree) == (tree is H=bind, no domain, AG EF / AX, variable atom) & (binder name == atom name), names symbolic'})
